@@ -2,7 +2,7 @@
    implementation wrote for the observed model state, and the model's decoder applied to the
    implementation's bytes must give back that state. *)
 From Coq Require Import List NArith ZArith Arith Bool.
-From Dimod Require Import Base.Util Gen.Gen_Codec Model.Codec Model.CodecEq Model.CqmFile Model.CqmFile2 Model.Rebuild Gen.Gen_Loaders Model.Loaders.
+From Dimod Require Import Base.Util Gen.Gen_Codec Model.Codec Model.CodecEq Model.CqmFile Model.CqmFile2 Model.Npy Model.Rebuild Gen.Gen_Loaders Model.Loaders.
 From Dimod Require Export Model.CodecEq.
 Import ListNotations.
 
@@ -22,6 +22,12 @@ Inductive case :=
   (* a CQM serialization-version-2.0 file written by the implementation: the members of its archive in directory order,
      and the saved model as the member-level record of Model/CqmFile2.v *)
 | CCqm2 (z : archive) (m : c2model)
+  (* the 64-byte aligned CQM header in front of the archive: magic, version (2, 0), the seven counts *)
+| CCqm2H (m : c2model) (hdr : bytes)
+  (* the .npy members of the data section of a DQM file, and the vectors of the model that was saved / loaded *)
+| CDqm (z : archive) (vec : dqmvec)
+  (* one integer .npy member (case_starts / row / column indices of a DQM too large to render in full) *)
+| CNpyInts (member : bytes) (xs : list N)
 | CBqmDec (f : bqmfile) (impl : bytes)
 | CExprDec (f : exprfile) (impl : bytes)
   (* float32 bytes and the float64 bytes NumPy converts them to *)
@@ -60,6 +66,12 @@ Definition check (c : case) : bool :=
   | CBqmDec f bs => res_is bqmfile_eqb (run bqm_decode bs) f && bqm_rebuild_ok (bf_adj f)
   | CCqm2 z m => list_eqb member_eqb (cqm2_archive m) z
                  && match cqm2_read (length (c2_vinfo m)) z with Ok m' => c2model_eqb m' m | Err => false end
+  | CCqm2H m hdr => bytes_eqb (cqm2_header m) hdr
+  | CDqm z vec => match dqm_read z with Ok f => dqmvec_eqb f vec | Err => false end
+  | CNpyInts b xs => match npy_decode b with
+                     | Ok a => match npy_ints a with Some ys => list_eqb N.eqb ys xs | None => false end
+                     | Err => false
+                     end
   | CExprDec f bs => res_is exprfile_eqb (run expr_decode bs) f
   | CWiden ps => forallb (fun p => bytes_eqb (f32_to_f64 (fst p)) (snd p)) ps
   | CLegacy z loaded => match legacy_read z with Ok m => lmodel_eqb m loaded | Err => false end
